@@ -1045,8 +1045,17 @@ class Watcher(object):
                     self.spawn_process()
                     yield tornado_sleep(self.warmup_delay)
             else:
+                # every worker started before the reload goes, whatever
+                # became of its replacement (manage_processes would keep an
+                # old worker for each replacement that did not survive)
+                old_processes = list(self.processes.values())
                 for i in range(self.numprocesses):
                     self.spawn_process()
+                removes = yield [self.kill_process(process)
+                                 for process in old_processes]
+                for i, process in enumerate(old_processes):
+                    if removes[i]:
+                        self.processes.pop(process.pid, None)
                 yield self.manage_processes()
         self.notify_event("reload", {"time": time.time()})
         logger.info('%s reloaded', self.name)
